@@ -298,6 +298,19 @@ pub fn run(cli: &Cli) -> ! {
             let index_at = to_bytes(&d.remaining_amount).len() + to_bytes(&d.transfer_amount).len();
             let bits: Vec<usize> = (0..bytes.len() * 8).filter(|b| b % stride == 0 && !(index_at * 8..(index_at + 8) * 8).contains(b)).collect();
             report.set_extra("transfer_bit_flips", json!(bits.len()));
+            let edits = count_field_edits(&bytes);
+            report.set_extra("transfer_count_field_edits", json!(edits.len()));
+            edits.par_iter().for_each(|(what, eb)| {
+                case(&report, json!({"transfer_structural_edit": what}), || {
+                    report.trace(1);
+                    if let Ok(x) = from_bytes::<EncryptedAmountTransferData<C>, _>(&mut std::io::Cursor::new(eb)) {
+                        if to_bytes(&x) != bytes && verify_transfer_data(&ctx, &pks[1], &pks[0], &enc_bal, &x) {
+                            return fail("altered-transfer-verifies", json!({"what": what}));
+                        }
+                    }
+                    Ok(())
+                });
+            });
             bits.par_iter().for_each(|&bit| {
                 case(&report, json!({"transfer_bit_flip": bit}), || {
                     let fb = flip(&bytes, bit);
@@ -316,6 +329,19 @@ pub fn run(cli: &Cli) -> ! {
             let index_at = to_bytes(&d.remaining_amount).len() + to_bytes(&d.transfer_amount).len();
             let bits: Vec<usize> = (0..bytes.len() * 8).filter(|b| b % stride == 0 && !(index_at * 8..(index_at + 8) * 8).contains(b)).collect();
             report.set_extra("sec_to_pub_bit_flips", json!(bits.len()));
+            let edits = count_field_edits(&bytes);
+            report.set_extra("sec_to_pub_count_field_edits", json!(edits.len()));
+            edits.par_iter().for_each(|(what, eb)| {
+                case(&report, json!({"sec_to_pub_structural_edit": what}), || {
+                    report.trace(1);
+                    if let Ok(x) = from_bytes::<SecToPubAmountTransferData<C>, _>(&mut std::io::Cursor::new(eb)) {
+                        if to_bytes(&x) != bytes && verify_sec_to_pub_transfer_data(&ctx, &pks[0], &enc_bal, &x) {
+                            return fail("altered-transfer-verifies", json!({"what": what}));
+                        }
+                    }
+                    Ok(())
+                });
+            });
             bits.par_iter().for_each(|&bit| {
                 case(&report, json!({"sec_to_pub_bit_flip": bit}), || {
                     let fb = flip(&bytes, bit);
